@@ -2816,6 +2816,7 @@ class ChannelManager:
             )
             return
 
+        new_channels: list[LeCreditBasedChannel] = []
         for destination_cid in request.source_cid:
             # TODO: Handle Classic channels.
             if not (source_cid := self.find_free_le_cid(connection_channels)):
@@ -2843,7 +2844,7 @@ class ChannelManager:
             )
             connection_channels[source_cid] = channel
             le_connection_channels[destination_cid] = channel
-            server.on_connection(channel)
+            new_channels.append(channel)
 
         # Respond
         self.send_control_frame(
@@ -2858,6 +2859,10 @@ class ChannelManager:
                 result=L2CAP_Credit_Based_Connection_Response.Result.ALL_CONNECTIONS_SUCCESSFUL,
             ),
         )
+
+        # Notify (after the response, so that data written by the handler follows it)
+        for channel in new_channels:
+            server.on_connection(channel)
 
     def on_l2cap_credit_based_connection_response(
         self,
